@@ -26,10 +26,53 @@ def _req_py(req):
     if f == "one":
         return C.dec_out(req["o"])
     if f == "iter":
-        return [C.dec_out(o) for o in req["outs"]]
+        return _iterable([C.dec_out(o) for o in req["outs"]], req.get("itype", "list"))
     if f == "tuple":
         return tuple(C.dec_out(o) for o in req["outs"])
-    return {C.dec_out(o): a for o, a in req["map"]}
+    d = {C.dec_out(o): a for o, a in req["map"]}
+    mt = req.get("mtype", "dict")
+    if mt == "counter":
+        return Counter(d)
+    if mt == "proxy":
+        import types
+
+        return types.MappingProxyType(d)
+    if mt == "custom":
+        return _Map(d)
+    if mt == "H" and all(a >= 0 for a in d.values()):
+        from dyce import H
+
+        return H(d)  # a histogram is a mapping of outcomes to amounts
+    return d
+
+
+def _iterable(data, itype):
+    """the same outcomes as a list, a one-shot iterator, a generator, a deque or dict keys"""
+    import collections
+
+    if itype == "iter":
+        return iter(data)
+    if itype == "gen":
+        return (x for x in data)
+    if itype == "deque":
+        return collections.deque(data)
+    return data
+
+
+class _Map(__import__("collections").abc.Mapping):
+    """a Mapping that is not a dict"""
+
+    def __init__(self, d):
+        self._d = dict(d)
+
+    def __getitem__(self, k):
+        return self._d[k]
+
+    def __iter__(self):
+        return iter(self._d)
+
+    def __len__(self):
+        return len(self._d)
 
 
 def _req_counter(req):
@@ -119,7 +162,7 @@ def impl(case):
     if k == "acc":
         return _fmt(h.accumulate(C.dec_h(case["b"])), table)
     if k == "zfill":
-        return _fmt(h.zero_fill([C.dec_out(o) for o in case["outs"]]), table)
+        return _fmt(h.zero_fill(_iterable([C.dec_out(o) for o in case["outs"]], case.get("itype", "list"))), table)
     if k == "remove":
         return _fmt(h.remove(C.dec_out(case["o"])), table)
     raise KeyError(k)
@@ -243,7 +286,7 @@ def _rand_req(rnd, outs):
     if f == "one":
         return {"form": "one", "o": pick()}
     if f in ("iter", "tuple"):
-        return {"form": f, "outs": [pick() for _ in range(rnd.randint(0, 4))]}
+        return {"form": f, "outs": [pick() for _ in range(rnd.randint(0, 4))], "itype": rnd.choice(["list", "list", "iter", "gen", "deque"])}
     m, seen = [], set()
     for _ in range(rnd.randint(0, 3)):
         o = pick()
@@ -252,7 +295,7 @@ def _rand_req(rnd, outs):
             continue
         seen.add(v)
         m.append([o, rnd.choice([1, 1, 2, 3, 0, -1, -2])])
-    return {"form": "map", "map": m}
+    return {"form": "map", "map": m, "mtype": rnd.choice(["dict", "dict", "counter", "proxy", "custom", "H"])}
 
 
 def generate(rnd, tier, scale):
@@ -272,6 +315,6 @@ def generate(rnd, tier, scale):
         elif r < 0.75:
             yield dict(k="acc", h=h, b=rnd.choice(cat) if rnd.random() < 0.3 else gen.rand_h(rnd, 4, kind, allow_zero_total=True))
         elif r < 0.87:
-            yield dict(k="zfill", h=h, outs=[rnd.choice(outs + ["i:0", "i:7", "i:-3", "f:2.0"]) for _ in range(rnd.randint(0, 4))])
+            yield dict(k="zfill", h=h, outs=[rnd.choice(outs + ["i:0", "i:7", "i:-3", "f:2.0"]) for _ in range(rnd.randint(0, 4))], itype=rnd.choice(["list", "list", "iter", "gen", "deque"]))
         else:
             yield dict(k="remove", h=h, o=rnd.choice(outs + ["i:0", "i:7", "f:1.0"]))
